@@ -2,77 +2,98 @@
    and never collide.  Statements only; every proof is `exact <lemma>` into C10_Registry/Proofs.v.
 
    Vocabulary (C10_Registry/Model.v, Proofs.v):
-     sys            persistent state: rows + version row of the qnames / containers / singletons views
-     AStart qn cn sn f   one application start with the names the schema enumerates (in order) and an
-                    injected storage failure f (none / rows batch of registry r / version row of registry r)
-     ARename o n f  qnames.Rename
-     sys_run        any history of such actions
-     sys_ok         every registry: rows sorted, live IDs strictly between the reserved range and
-                    the limit, no two names share a live ID
-     sys_covered    at every Prepare of the history, the registry's stored rows are either read
-                    (version row set) or all their names are in the schema being prepared.
-                    It holds for every history without a failure of a version-row write
-                    (uninterrupted_histories_covered) and for an interrupted first start retried
-                    with a schema that still contains the interrupted one's names
-                    (interrupted_first_store_partial); without it the statement is false for the
-                    code as it is (no_collision_refuted: finding F20). *)
+     state = (sys, proc)
+       sys    persistent: rows + version row of the qnames / containers / singletons views
+       proc   volatile, one per process: the three registry objects, their pending-changes
+              counters and the cached versions; they survive a failed start and are prepared
+              again by an in-process retry
+     AStart qn cn sn f   a new process starts the application with the names the schema
+              enumerates (in order) and an injected storage failure f (none / rows batch of
+              registry r / version row of registry r)
+     ARetry qn cn sn f   the same process asks for the application again (after a failed start:
+              AppConfigType.prepare runs again on the same objects; after a successful one: no-op)
+     ARename o n f       qnames.Rename
+     sys_run             any history of such actions
+     sys_ok              every registry: rows sorted, live IDs strictly between the reserved range
+                         and the limit, no two names share a live ID
+     inv b st            sys_ok, and (unless b: a Rename happened since the process began) every
+                         registry object is well-formed, compatible with the stored rows, and
+                         fully stored unless its changes counter is pending
+     hist_ok b l         the one excluded sequencing: an in-process retry after a Rename changed
+                         the storage behind the process's back (holds for every history without
+                         ARetry: hist_ok_without_retries)
+     prepares st a ...   a is a start, or a retry while the process is not yet prepared *)
 From Coq Require Import List NArith Lia.
 From V Require Import Lib.Lex Lib.SMap Gen.Params C10_Registry.Model C10_Registry.Proofs.
 Import ListNotations.
 Local Open Scope N_scope.
 
-(* side conditions on the constants the translator took from the Go source *)
+(* side conditions on the constants and code shapes the translator took from the Go source *)
 Lemma qname_range_nonempty : reg_qname_sys_last < reg_qname_max.
 Proof. vm_compute. reflexivity. Qed.
 Lemma container_range_nonempty : reg_cont_sys_last < reg_cont_max.
 Proof. vm_compute. reflexivity. Qed.
 Lemma singleton_range_nonempty : 0 < reg_first_singleton /\ reg_first_singleton < reg_max_singleton.
 Proof. vm_compute. split; reflexivity. Qed.
-(* the three load() functions treat an absent version row alike (all skip the stored rows - the
-   root of F20 - or, after the proposed repair, all read them) *)
-Lemma registries_treat_absent_version_alike :
-  reg_qname_needs_version = reg_cont_needs_version /\ reg_cont_needs_version = reg_single_needs_version.
-Proof. split; reflexivity. Qed.
+(* load() reads the stored rows whether or not the version row exists (the repair of F20) *)
+Lemma rows_are_read_without_version_row :
+  reg_qname_needs_version = false /\ reg_cont_needs_version = false /\ reg_single_needs_version = false.
+Proof. repeat split; reflexivity. Qed.
+(* the pending-changes counter is cleared by store() after both writes went through, never by
+   Prepare before the store: a failed store stays pending for the in-process retry *)
+Lemma changes_cleared_only_by_successful_store :
+  reg_qname_changes_cleared_by_store = true /\ reg_cont_changes_cleared_by_store = true /\
+  reg_single_changes_cleared_by_store = true.
+Proof. repeat split; reflexivity. Qed.
 
-(* ---- no collision, system range untouched, never at or above the limit: an invariant of every history ---- *)
+(* ---- no collision, system range untouched, never at or above the limit: an invariant of every
+   history, on any well-formed storage (starts with arbitrary schemas and enumeration orders,
+   failures of the rows batch or of the version row in any registry - i.e. also the interruption
+   between the rows and the version row -, in-process retries, renames) ---- *)
 Theorem registries_stay_well_formed :
-  forall s l, sys_ok s -> sys_covered s l -> sys_ok (sys_run s l).
-Proof. exact (fun s l => sys_run_ok l s). Qed.
+  forall b st l, inv b st -> hist_ok b l -> sys_ok (fst (sys_run st l)).
+Proof. exact sys_run_ok. Qed.
 
-(* ... and what the application gets from a successful start after any such history: every name of
-   the schema has an ID; no two names share one; each ID lies strictly between the reserved range
-   and the limit, maps back to its name (ID->name), and is the one stored *)
+Theorem any_well_formed_storage_any_new_process :
+  forall s b, sys_ok s -> inv b (s, proc0).
+Proof. exact inv_fresh. Qed.
+
+Theorem hist_ok_without_retries :
+  forall l b, forallb (fun a => negb (is_retry a)) l = true -> hist_ok b l.
+Proof. exact hist_ok_no_retry. Qed.
+
+(* ... and what the application gets from a successful start or retry after any such history:
+   every name of the schema has an ID; no two names share one; each ID lies strictly between the
+   reserved range and the limit, maps back to its name (ID->name), IS STORED (so the next process
+   finds it), and every stored live ID is returned *)
 Theorem successful_start_is_injective :
-  forall s l qn cn sn f s' mq mc ms,
-  sys_ok s -> sys_covered s l -> sys_covers (sys_run s l) (AStart qn cn sn f) ->
-  sys_step (sys_run s l) (AStart qn cn sn f) = (s', SOk mq mc ms) ->
-  lookup_ok cfg_q mq qn (s_q s') /\ lookup_ok cfg_c mc cn (s_c s') /\ lookup_ok cfg_s ms sn (s_s s').
-Proof.
-  exact (fun s l qn cn sn f s' mq mc ms Hok Hcov Hc E =>
-           start_lookup_ok (sys_run s l) qn cn sn f s' mq mc ms (sys_run_ok l s Hok Hcov) Hc E).
-Qed.
+  forall b st l a qn cn sn st' mq mc ms,
+  inv b st -> hist_ok b (l ++ [a]) -> prepares (sys_run st l) a qn cn sn ->
+  sys_step (sys_run st l) a = (st', SOk mq mc ms) ->
+  lookup_ok cfg_q mq qn (s_q (fst st')) /\ lookup_ok cfg_c mc cn (s_c (fst st')) /\
+  lookup_ok cfg_s ms sn (s_s (fst st')).
+Proof. exact start_lookup_after. Qed.
 
-(* ---- stable: stored IDs survive every history (add / drop / re-add / rename of other names,
-   failures at any point), in all three registries (r = 0 qnames, 1 containers, 2 singletons) ---- *)
+(* ---- stable: stored IDs survive every history, in all three registries
+   (r = 0 qnames, 1 containers, 2 singletons) ---- *)
 Theorem stored_ids_stable :
-  forall r l s n id,
-  sys_ok s -> sys_covered s l ->
-  reads_rows (cfg_of r) (sel r s) = true ->
-  sm_get n (p_rows (sel r s)) = Some id -> skip (cfg_of r) id = false ->
+  forall r l b st n id,
+  inv b st -> hist_ok b l ->
+  sm_get n (p_rows (sel r (fst st))) = Some id -> skip (cfg_of r) id = false ->
   (r = 0 -> never_renamed n l) ->
-  sm_get n (p_rows (sel r (sys_run s l))) = Some id.
-Proof. exact (fun r l s n id H1 H2 H3 H4 H5 H6 => proj1 (sys_run_stable r l s n id H1 H2 H3 H4 H5 H6)). Qed.
+  sm_get n (p_rows (sel r (fst (sys_run st l)))) = Some id.
+Proof. exact sys_run_stable. Qed.
 
-(* the same as the application observes it: an ID returned by one successful start is returned by
-   every later successful start *)
+(* the same as the application observes it: an ID returned by one successful start or retry is
+   returned by every later successful start or retry *)
 Theorem ids_same_on_every_later_start :
-  forall r s qn cn sn f s1 mq mc ms n id l qn' cn' sn' f' s2 mq' mc' ms',
-  sys_ok s -> sys_covers s (AStart qn cn sn f) ->
-  sys_step s (AStart qn cn sn f) = (s1, SOk mq mc ms) ->
+  forall r b st a1 qn cn sn st1 mq mc ms n id l a2 qn' cn' sn' st2 mq' mc' ms',
+  inv b st -> hist_ok b (a1 :: l ++ [a2]) ->
+  prepares st a1 qn cn sn -> sys_step st a1 = (st1, SOk mq mc ms) ->
   sm_get n (m_names (mem_of r mq mc ms)) = Some id ->
-  sys_covered s1 l -> (r = 0 -> never_renamed n l) ->
-  sys_covers (sys_run s1 l) (AStart qn' cn' sn' f') ->
-  sys_step (sys_run s1 l) (AStart qn' cn' sn' f') = (s2, SOk mq' mc' ms') ->
+  (r = 0 -> never_renamed n l) ->
+  prepares (sys_run st1 l) a2 qn' cn' sn' ->
+  sys_step (sys_run st1 l) a2 = (st2, SOk mq' mc' ms') ->
   sm_get n (m_names (mem_of r mq' mc' ms')) = Some id.
 Proof. exact start_ids_stable. Qed.
 
@@ -84,151 +105,124 @@ Theorem rename_moves_the_id :
   exists id, sm_get old (p_rows p) = Some id /\ skip cfg_q id = false /\
              sm_get new (p_rows (fst (rename cfg_q p old new f))) = Some id /\
              sm_get old (p_rows (fst (rename cfg_q p old new f))) = Some 0.
-Proof. exact (rename_moves_id cfg_q cfg_q_wf eq_refl). Qed.
+Proof. exact (rename_moves_id cfg_q cfg_q_wf cfg_q_read eq_refl). Qed.
 
 (* ---- data written under an ID is decoded with the name it was written under ---- *)
 Theorem data_decoded_with_its_name :
-  forall s qn cn sn f s1 mq mc ms n id l qn' cn' sn' f' s2 mq' mc' ms',
-  sys_ok s -> sys_covers s (AStart qn cn sn f) ->
-  sys_step s (AStart qn cn sn f) = (s1, SOk mq mc ms) ->
+  forall b st a1 qn cn sn st1 mq mc ms n id l a2 qn' cn' sn' st2 mq' mc' ms',
+  inv b st -> hist_ok b (a1 :: l ++ [a2]) ->
+  prepares st a1 qn cn sn -> sys_step st a1 = (st1, SOk mq mc ms) ->
   sm_get n (m_names mq) = Some id ->
-  sys_covered s1 l -> never_renamed n l ->
-  sys_covers (sys_run s1 l) (AStart qn' cn' sn' f') ->
-  sys_step (sys_run s1 l) (AStart qn' cn' sn' f') = (s2, SOk mq' mc' ms') ->
+  never_renamed n l ->
+  prepares (sys_run st1 l) a2 qn' cn' sn' ->
+  sys_step (sys_run st1 l) a2 = (st2, SOk mq' mc' ms') ->
   In n qn' -> decode mq' qn' id = Some n.
 Proof. exact decode_stable. Qed.
 
 (* ---- the limit is an error, not a wrap-around: nothing is stored, and it happens only when the
    IDs really run out (allocated IDs stay below the limit by successful_start_is_injective) ---- *)
 Theorem limit_is_error_stores_nothing :
-  forall c p names f p', prepare c p names f = (p', RErr 2) -> p' = p.
-Proof. exact prepare_limit_keeps. Qed.
+  forall c p v names f p' v',
+  c_sys_last c < c_max c -> c_needver c = false -> c_late c = true ->
+  rows_ok c (p_rows p) -> vol_ok c p v ->
+  prepare c p v names f = (p', v', RErr 2) -> p' = p.
+Proof. exact (fun c p v names f p' v' Hwf Hr Hl => prepare_limit_keeps c Hwf Hr Hl p v names f p' v'). Qed.
 
 Theorem no_limit_error_while_room :
-  forall c p names f m0,
-  c_sys_last c < c_max c -> rows_ok c (p_rows p) -> load c p = LOk m0 ->
-  m_last m0 + N.of_nat (length names) < c_max c ->
-  forall p', prepare c p names f <> (p', RErr 2).
-Proof. exact (fun c p names f m0 Hwf => prepare_room c Hwf p names f m0). Qed.
+  forall c p v names f m1,
+  c_sys_last c < c_max c -> c_needver c = false ->
+  rows_ok c (p_rows p) -> vol_ok c p v ->
+  load_rows c (p_rows p) (v_mem v) = (m1, true) ->
+  m_last m1 + N.of_nat (length names) < c_max c ->
+  forall p' v', prepare c p v names f <> (p', v', RErr 2).
+Proof. exact (fun c p v names f m1 Hwf Hr => prepare_room c Hwf Hr p v names f m1). Qed.
 
-(* ---- when does sys_covered hold ---- *)
+(* ---- what the in-process retry relies on: a Prepare that failed in store() leaves its changes
+   pending, so the retry stores again instead of starting the application on unstored IDs ---- *)
+Theorem failed_store_stays_pending :
+  forall c p v names f p' v',
+  c_sys_last c < c_max c -> c_needver c = false -> c_late c = true ->
+  rows_ok c (p_rows p) -> vol_ok c p v ->
+  prepare c p v names f = (p', v', RErr 1) -> v_changed v' = true.
+Proof. exact (fun c p v names f p' v' Hwf Hr Hl => failed_store_keeps_changes c Hwf Hr Hl p v names f p' v'). Qed.
 
-(* every history on a fresh storage in which no version-row write fails (batch failures and any
-   number of failed starts are allowed) *)
-Theorem uninterrupted_histories_covered :
-  forall l, Forall no_ver_failure l -> sys_covered fresh l.
-Proof. exact (fun l => clean_history_covered l fresh fresh_clean). Qed.
-
-(* The interruption between the rows and the version row of the first store.
-   Full statement (what the property asks for):
-     forall l, sys_covered fresh l    -- hence sys_ok (sys_run fresh l) for every history, FailVer included
-   It is false for the code as it is (load() skips the rows while the version row is absent;
-   the translator reports that shape as reg_*_needs_version = true): *)
-Theorem no_collision_refuted :
-  reg_qname_needs_version = true -> exists l, ~ sys_ok (sys_run fresh l).
-Proof.
-  intros Hshape.
-  first [ vm_compute in Hshape; discriminate Hshape
-        | exists [AStart [[1]; [3]] [] [] (FailVer 0); AStart [[2]; [3]] [] [] NoFault];
-          intros ((_ & _ & Hinj) & _); specialize (Hinj [1] [2] 256); vm_compute in Hinj;
-          assert (H : [1] = [2]) by (apply Hinj; reflexivity); discriminate H ].
-Qed.
-
-(* ... and the application sees it: two names of the running schema with one ID, and a row
-   written under the first decoded with the name of the second *)
-Theorem no_collision_refuted_observably :
-  reg_qname_needs_version = true ->
-  exists l qn s' mq mc ms n1 n2 id,
-    sys_step (sys_run fresh l) (AStart qn [] [] NoFault) = (s', SOk mq mc ms) /\
-    In n1 qn /\ In n2 qn /\ n1 <> n2 /\
-    sm_get n1 (m_names mq) = Some id /\ sm_get n2 (m_names mq) = Some id /\
-    decode mq qn id = Some n2.
-Proof.
-  intros Hshape.
-  first [ vm_compute in Hshape; discriminate Hshape
-        | exists [AStart [[1]; [3]] [] [] (FailVer 0); AStart [[2]; [3]] [] [] NoFault], [[1]; [2]; [3]];
-          eexists _, _, _, _, [1], [2], 256; vm_compute;
-          repeat split; try reflexivity; try (left; reflexivity); try (right; left; reflexivity); discriminate ].
-Qed.
-
-(* ... and true as soon as load() reads the rows whether or not the version row exists (the
-   repair proposed in findings/C10/F20.md; vacuous for the code as pinned) *)
-Theorem all_histories_covered_once_rows_are_always_read :
-  reg_qname_needs_version = false -> reg_cont_needs_version = false -> reg_single_needs_version = false ->
-  forall l, sys_covered fresh l.
-Proof.
-  exact (fun Nq Nc Ns l => always_read_histories_covered l fresh Nq Nc Ns
-           (conj (N.le_0_l 1) (conj (N.le_0_l 1) (N.le_0_l 1)))).
-Qed.
-
-(* partial: the interrupted first start (any failure point, any registry) is harmless when the
-   retry's schema still contains every name of the interrupted one -- exactly what the witness
-   above violates (name [1] is missing from the retry) *)
-Theorem interrupted_first_store_partial :
-  forall s qn1 cn1 sn1 f1 qn2 cn2 sn2 f2,
-  sys_empty s -> incl qn1 qn2 -> incl cn1 cn2 -> incl sn1 sn2 ->
-  sys_covered s [AStart qn1 cn1 sn1 f1; AStart qn2 cn2 sn2 f2].
-Proof. exact interrupted_first_store_covered. Qed.
+(* ... and the hypothesis c_late = true is necessary: a registry that clears the counter before
+   calling store() starts the application, after a failed rows batch and an in-process retry, on
+   an ID that is not stored *)
+Definition cfg_early : rcfg := mkCfg 255 65535 true false false.
+Theorem unstored_ids_if_counter_cleared_before_store :
+  exists p1 v1 p2 v2 m n id,
+    prepare cfg_early (mkPers [] 0) (vol0 cfg_early) [n] RFailBatch = (p1, v1, RErr 1) /\
+    prepare cfg_early p1 v1 [n] RNoFault = (p2, v2, ROk m) /\
+    sm_get n (m_names m) = Some id /\ sm_get n (p_rows p2) = None.
+Proof. do 4 eexists. exists (mkMem [([98], 256)] [(256, [98])] 256), [98], 256. vm_compute. repeat split. Qed.
 
 (* ---------------- non-vacuity ---------------- *)
 
 Definition nA := [97]. Definition nB := [98]. Definition nC := [99]. Definition nD := [100].
 Definition k1 := [1]. Definition k2 := [2].
 
-(* a history with drop, re-add, a failed rows batch, a rename, a schema change after the rename:
-   it is covered, the invariant is inhabited, the final start computes concrete IDs; nA keeps
-   256 although it was dropped and re-added, nB's ID 257 went to nD, the re-added nB got a new one *)
+(* a history with a failed rows batch, an in-process retry that fails at the containers' version
+   row, a second retry that succeeds, a rename, and a new process with a grown, reordered schema *)
 Definition hist1 : list action :=
-  [AStart [nA; nB] [k1] [nA] NoFault;
-   AStart [nB; nC] [k2] [nC] (FailBatch 0);
-   AStart [nB; nC] [k2] [nC] NoFault;
+  [AStart [nB; nC] [k2] [nC] (FailBatch 0);
+   ARetry [nB; nC] [k2] [nC] (FailVer 1);
+   ARetry [nB; nC] [k2] [nC] NoFault;
    ARename nB nD NoFault;
-   AStart [nA; nB; nD] [k1; k2] [nA; nD] (FailBatch 1)].
+   AStart [nA; nB; nD] [k1; k2] [nA; nD] NoFault].
 
-Example hist1_covered : sys_covered fresh hist1.
-Proof. apply uninterrupted_histories_covered. repeat constructor. Qed.
+Example hist1_ok : hist_ok false hist1 /\ inv false (fresh, proc0).
+Proof. split; [cbn; tauto|apply inv_fresh; apply fresh_ok]. Qed.
 
 Example stable_nonvacuous :
-  let s := sys_run fresh hist1 in
-  p_rows (s_q s) = [(nA, 256); (nB, 259); (nC, 258); (nD, 257)] /\
-  p_rows (s_c s) = [(k1, 64); (k2, 65)] /\
-  p_rows (s_s s) = [(nA, 65536); (nC, 65537); (nD, 65538)] /\
-  (exists s' mc ms mq,
-     sys_step s (AStart [nA; nD] [k1] [nD] NoFault) = (s', SOk mq mc ms) /\
-     sm_get nA (m_names mq) = Some 256 /\ sm_get nD (m_names mq) = Some 257 /\
-     decode mq [nA; nD] 257 = Some nD /\ decode mq [nA; nD] 258 = None /\
-     sm_get nD (m_names ms) = Some 65538).
+  (* the failed start stores nothing; the first retry stores qnames and the container rows but not
+     the containers' version row, which then stays absent (the cached version says it is written) *)
+  fst (sys_run (fresh, proc0) (firstn 1 hist1)) = fresh /\
+  fst (sys_run (fresh, proc0) (firstn 3 hist1)) =
+    mkSys (mkPers [(nB, 256); (nC, 257)] 1) (mkPers [(k2, 64)] 0) (mkPers [(nC, 65536)] 1) /\
+  (* nB's ID went to nD, the re-added nB got a new one, nC and k2 kept theirs although nA and k1
+     are enumerated before them now *)
+  fst (sys_run (fresh, proc0) hist1) =
+    mkSys (mkPers [(nA, 258); (nB, 259); (nC, 257); (nD, 256)] 1) (mkPers [(k1, 65); (k2, 64)] 1)
+          (mkPers [(nA, 65537); (nC, 65536); (nD, 65538)] 1) /\
+  (exists st' mq mc ms,
+     sys_step (sys_run (fresh, proc0) hist1) (AStart [nC; nD] [k2] [nC] NoFault) = (st', SOk mq mc ms) /\
+     sm_get nC (m_names mq) = Some 257 /\ sm_get nD (m_names mq) = Some 256 /\
+     decode mq [nC; nD] 256 = Some nD /\ decode mq [nC; nD] 258 = None /\
+     sm_get k2 (m_names mc) = Some 64 /\ sm_get nC (m_names ms) = Some 65536).
 Proof. vm_compute. repeat split. do 4 eexists. repeat split. Qed.
 
+Example prepares_nonvacuous :
+  prepares (sys_run (fresh, proc0) (firstn 1 hist1)) (ARetry [nB; nC] [k2] [nC] (FailVer 1)) [nB; nC] [k2] [nC].
+Proof. constructor. vm_compute. reflexivity. Qed.
+
 Example rename_nonvacuous :
-  let p := s_q (sys_run fresh [AStart [nA; nB] [] [] NoFault]) in
+  let p := s_q (fst (sys_run (fresh, proc0) [AStart [nA; nB] [] [] NoFault])) in
   snd (rename cfg_q p nB nD RNoFault) = 0 /\
   p_rows (fst (rename cfg_q p nB nD RNoFault)) = [(nA, 256); (nB, 0); (nD, 257)] /\
   snd (rename cfg_q p nC nD RNoFault) = 5 /\ snd (rename cfg_q p nA nB RNoFault) = 5.
 Proof. vm_compute. repeat split. Qed.
 
-(* interrupted first store (version row of qnames fails), retried with a superset schema: covered,
-   and the later re-add of everything is collision-free *)
-Example interrupted_partial_nonvacuous :
-  let l := [AStart [nA; nC] [] [] (FailVer 0); AStart [nA; nC; nD] [] [] NoFault] in
-  sys_covered fresh l /\
-  p_rows (s_q (sys_run fresh [AStart [nA; nC] [] [] (FailVer 0)])) = [(nA, 256); (nC, 257)] /\
-  p_ver (s_q (sys_run fresh [AStart [nA; nC] [] [] (FailVer 0)])) = 0 /\
-  p_rows (s_q (sys_run fresh l)) = [(nA, 256); (nC, 257); (nD, 258)] /\ p_ver (s_q (sys_run fresh l)) = 1.
-Proof.
-  split; [apply interrupted_first_store_partial; [repeat split | | |]; intros x Hx; cbn in *; tauto|].
-  vm_compute. repeat split.
-Qed.
+(* the interruption between the rows and the version row of the first store, retried in the same
+   process and followed by a new process with a grown schema *)
+Example interrupted_first_store_nonvacuous :
+  let l := [AStart [nB; nC] [] [] (FailVer 0); ARetry [nB; nC] [] [] NoFault; AStart [nA; nB; nC] [] [] NoFault] in
+  hist_ok false l /\
+  s_q (fst (sys_run (fresh, proc0) (firstn 2 l))) = mkPers [(nB, 256); (nC, 257)] 0 /\
+  s_q (fst (sys_run (fresh, proc0) l)) = mkPers [(nA, 258); (nB, 256); (nC, 257)] 1.
+Proof. split; [cbn; tauto|]. vm_compute. split; reflexivity. Qed.
 
 (* the limit: one free singleton ID left, two new singletons wanted -> error 2, nothing stored;
    one wanted -> gets the last ID below the limit *)
 Example limit_nonvacuous :
   let p := mkPers [(nA, reg_max_singleton - 2)] 1 in
-  prepare cfg_s p [nA; nB; nC] RNoFault = (p, RErr 2) /\
-  p_rows (fst (prepare cfg_s p [nA; nB] RNoFault)) = [(nA, reg_max_singleton - 2); (nB, reg_max_singleton - 1)] /\
-  rows_ok cfg_s (p_rows p).
+  fst (fst (prepare cfg_s p (vol0 cfg_s) [nA; nB; nC] RNoFault)) = p /\
+  snd (prepare cfg_s p (vol0 cfg_s) [nA; nB; nC] RNoFault) = RErr 2 /\
+  p_rows (fst (fst (prepare cfg_s p (vol0 cfg_s) [nA; nB] RNoFault))) = [(nA, reg_max_singleton - 2); (nB, reg_max_singleton - 1)] /\
+  rows_ok cfg_s (p_rows p) /\ vol_ok cfg_s p (vol0 cfg_s).
 Proof.
-  intros p. split; [vm_compute; reflexivity|split; [vm_compute; reflexivity|]].
+  intros p. split; [vm_compute; reflexivity|split; [vm_compute; reflexivity|split; [vm_compute; reflexivity|]]].
+  split; [|apply vol0_ok; exact cfg_s_wf].
   split; [constructor|split].
   - intros n id H _. cbn in H. destruct (lex_cmp n nA); inversion H; subst. vm_compute. split; reflexivity.
   - intros n1 n2 id H1 H2 _. cbn in H1, H2.
@@ -237,6 +231,8 @@ Proof.
 Qed.
 
 Print Assumptions registries_stay_well_formed.
+Print Assumptions any_well_formed_storage_any_new_process.
+Print Assumptions hist_ok_without_retries.
 Print Assumptions successful_start_is_injective.
 Print Assumptions stored_ids_stable.
 Print Assumptions ids_same_on_every_later_start.
@@ -244,8 +240,5 @@ Print Assumptions rename_moves_the_id.
 Print Assumptions data_decoded_with_its_name.
 Print Assumptions limit_is_error_stores_nothing.
 Print Assumptions no_limit_error_while_room.
-Print Assumptions uninterrupted_histories_covered.
-Print Assumptions no_collision_refuted.
-Print Assumptions no_collision_refuted_observably.
-Print Assumptions all_histories_covered_once_rows_are_always_read.
-Print Assumptions interrupted_first_store_partial.
+Print Assumptions failed_store_stays_pending.
+Print Assumptions unstored_ids_if_counter_cleared_before_store.
